@@ -191,24 +191,20 @@ static int is_file(const sqfs_inode_generic_t *n)
 	return n->base.type == SQFS_INODE_FILE || n->base.type == SQFS_INODE_EXT_FILE;
 }
 
-/* guards for memory-safety defects that belong to property C05 (DESIGN F12/F13):
- * the op is skipped identically in both modes */
+/* Former guards for the memory-safety defects F12/F13 (property C05): both are repaired in /repo
+ * (on-disk block size checked against block_size in the stream reader; 64 bit fragment bound), the
+ * model follows the repaired code, and the ops are no longer skipped.  Kept as functions so that the
+ * call sites document where the hazards were. */
 static int stream_unsafe(const rctx_t *c, const sqfs_inode_generic_t *n)
 {
-	size_t i, cnt = sqfs_inode_get_file_block_count(n);
-	for (i = 0; i < cnt; ++i)
-		if (SQFS_ON_DISK_BLOCK_SIZE(n->extra[i]) > c->super.block_size)
-			return 1;
+	(void)c; (void)n;
 	return 0;
 }
 
 static int frag_unsafe(const rctx_t *c, const sqfs_inode_generic_t *n)
 {
-	sqfs_u32 idx, off;
-	sqfs_u64 sz;
-	sqfs_inode_get_file_size(n, &sz);
-	sqfs_inode_get_frag_location(n, &idx, &off);
-	return ((sqfs_u64)off + (sz % c->super.block_size)) > 0xFFFFFFFFull;
+	(void)c; (void)n;
+	return 0;
 }
 
 /* ---------------------------- ops ---------------------------------- */
